@@ -10,6 +10,7 @@ class RawModel:
     def last_token(self) -> 'RawTokenModel': ...
     def detach(self) -> list['RawTokenModel']: ...
     def reattach(self, token_store: TokenStore) -> 'RawModel': ...
+    def clone(self, token_store: TokenStore, token_transformer: 'object') -> 'RawModel': ...
 
 class RawTreeModel(RawModel):
     _token_store: TokenStore
